@@ -8,7 +8,7 @@ CONSTANTS
   MaxReq = 3
   MaxPureTaken = 8
   NForeign = 1
-  CJ = FALSE
+  CJ = TRUE
 INIT Init
 NEXT Next
 VIEW view
